@@ -33,6 +33,8 @@ theorem shl_length (w : Nat) (a : List Nat) (s : Int) : (shl w a s).length = a.l
     · simp
 
 
+/-! ### pure-Nat digit identities -/
+
 /-- digit `k` (base `2^w`) of `A * 2^bs`, `bs < w` -/
 theorem shl_digit (w A bs k : Nat) (hbs : bs < w) :
     (A * 2 ^ bs / 2 ^ (w * k)) % 2 ^ w =
@@ -139,6 +141,8 @@ theorem shl_limbs (w : Nat) (hw : 0 < w) (a : List Nat) (ha : Wf (2 ^ w) a) (s :
           Nat.mul_div_mul_right _ _ (Nat.two_pow_pos _)]
       rw [e, shl_digit w _ bs k hbs, limb_eq (2 ^ w) (Nat.two_pow_pos _) a ha, limb_eq (2 ^ w) (Nat.two_pow_pos _) a ha,
         pow_base, pow_base]
+
+/-! ### left shift -/
 
 theorem shl_nonpos (w : Nat) (a : List Nat) (s : Int) (hs : s ≤ 0) : shl w a s = a := by
   unfold shl
@@ -248,5 +252,292 @@ theorem shr_val (w : Nat) (hw : 0 < w) (a : List Nat) (ha : Wf (2 ^ w) a) (s : I
     rw [h, shr_length]
     apply Nat.mod_eq_of_lt
     exact Nat.lt_of_le_of_lt (Nat.div_le_self _ _) (val_lt _ _ ha)
+
+
+/-! ### arithmetic right shift -/
+
+theorem or_full_mask (w x : Nat) (hx : x < 2 ^ w) : x ||| (2 ^ w - 1) = 2 ^ w - 1 := by
+  apply Nat.eq_of_testBit_eq
+  intro j
+  simp only [Nat.testBit_or, Nat.testBit_two_pow_sub_one]
+  by_cases hj : j < w
+  · simp [hj]
+  · have : x.testBit j = false :=
+      Nat.testBit_lt_two_pow (Nat.lt_of_lt_of_le hx (Nat.pow_le_pow_right (by omega) (by omega)))
+    simp [hj, this]
+
+/-- digit `i` of the sign-fill mask `(2^S - 1) * 2^(N - S)`, `N = w*n`, `S = w*ws + bs` -/
+theorem mask_digit (w n ws bs i : Nat) (hbs : bs < w) (hi : i < n) (hS : w * ws + bs < w * n) :
+    ((2 ^ (w * ws + bs) - 1) * 2 ^ (w * n - (w * ws + bs)) / 2 ^ (w * i)) % 2 ^ w =
+      if i ≥ n - ws then 2 ^ w - 1
+      else if bs ≠ 0 ∧ i = n - 1 - ws then ((2 ^ w - 1) * 2 ^ (w - bs)) % 2 ^ w
+      else 0 := by
+  have hi1 : w * (i + 1) ≤ w * n := Nat.mul_le_mul_left _ hi
+  rw [Nat.mul_add, Nat.mul_one] at hi1
+  apply Nat.eq_of_testBit_eq
+  intro j
+  simp only [Nat.testBit_mod_two_pow, Nat.testBit_div_two_pow, Nat.testBit_mul_two_pow,
+    Nat.testBit_two_pow_sub_one]
+  by_cases hj : j < w
+  · by_cases hA : i ≥ n - ws
+    · rw [if_pos hA]
+      have h1 : w * n ≤ w * (i + ws) := Nat.mul_le_mul_left _ (by omega)
+      rw [Nat.mul_add] at h1
+      simp only [Nat.testBit_two_pow_sub_one]
+      generalize w * n = N at *
+      generalize w * ws = Q at *
+      generalize w * i = P at *
+      have c1 : N - (Q + bs) ≤ j + P := by omega
+      have c2 : j + P - (N - (Q + bs)) < Q + bs := by omega
+      simp [hj, c1, c2]
+    · rw [if_neg hA]
+      by_cases hB : bs ≠ 0 ∧ i = n - 1 - ws
+      · rw [if_pos hB]
+        have h1 : w * (i + 1 + ws) = w * n := by congr 1; omega
+        rw [Nat.mul_add, Nat.mul_add, Nat.mul_one] at h1
+        simp only [Nat.testBit_mod_two_pow, Nat.testBit_mul_two_pow, Nat.testBit_two_pow_sub_one]
+        generalize w * n = N at *
+        generalize w * ws = Q at *
+        generalize w * i = P at *
+        have c2 : j + P - (N - (Q + bs)) < Q + bs := by omega
+        by_cases hjb : w - bs ≤ j
+        · have c1 : N - (Q + bs) ≤ j + P := by omega
+          have c3 : j - (w - bs) < w := by omega
+          simp [hj, c1, c2, hjb, c3]
+        · have c1 : ¬ (N - (Q + bs) ≤ j + P) := by omega
+          simp [hj, c1, hjb]
+      · rw [if_neg hB]
+        have h1 : w * (i + 1 + ws) ≤ w * n := Nat.mul_le_mul_left _ (by omega)
+        rw [Nat.mul_add, Nat.mul_add, Nat.mul_one] at h1
+        have h2 : bs = 0 ∨ w * (i + 2 + ws) ≤ w * n := by
+          rcases Nat.eq_zero_or_pos bs with h | h
+          · exact Or.inl h
+          · refine Or.inr (Nat.mul_le_mul_left _ ?_)
+            have : i ≠ n - 1 - ws := fun h' => hB ⟨by omega, h'⟩
+            omega
+        rw [Nat.mul_add, Nat.mul_add] at h2
+        generalize w * n = N at *
+        generalize w * ws = Q at *
+        generalize w * i = P at *
+        have c1 : ¬ (N - (Q + bs) ≤ j + P) := by omega
+        simp [c1]
+  · simp only [hj, decide_false, Bool.false_and]
+    split
+    · simp [hj]
+    · split
+      · simp [hj]
+      · simp
+
+
+theorem sar_length (w : Nat) (a : List Nat) (s : Int) : (sar w a s).length = a.length := by
+  unfold sar
+  simp only []
+  split
+  · exact shr_length w a s
+  · split
+    · simp
+    · split
+      · exact shr_length w a s
+      · simp
+
+theorem sar_nonneg (w : Nat) (a : List Nat) (s : Int) (h : isNeg (2 ^ w) a = false) : sar w a s = shr w a s := by
+  unfold sar
+  simp [h]
+
+/-- every limb of the arithmetic right shift of a negative value is the corresponding digit of
+    `val a / 2^s ||| mask`, the mask being the top `s` bits -/
+theorem sar_limbs (w : Nat) (hw : 0 < w) (a : List Nat) (ha : Wf (2 ^ w) a) (s : Int) (hs : 0 < s)
+    (hlt : s < ((a.length * w : Nat) : Int)) (hneg : isNeg (2 ^ w) a = true)
+    (i : Nat) (hi : i < a.length) :
+    limb (sar w a s) i =
+      ((val (2 ^ w) a / 2 ^ s.toNat ||| (2 ^ s.toNat - 1) * 2 ^ (w * a.length - s.toNat)) / (2 ^ w) ^ i) % 2 ^ w := by
+  have hS : ¬ s ≤ 0 := by omega
+  have hbig : ¬ s ≥ ((a.length * w : Nat) : Int) := by omega
+  have hout := shr_limbs w hw a ha s hs
+  have hwf := shr_wf w hw a ha s
+  rw [pow_base, Nat.or_div_two_pow, Nat.or_mod_two_pow]
+  unfold sar
+  simp only [hneg, Bool.not_true, Bool.false_eq_true, if_false, if_neg hS, if_neg hbig]
+  rw [limb_map_range _ _ _ hi]
+  have hSN : s.toNat < w * a.length := by rw [Nat.mul_comm]; omega
+  generalize hSdef : s.toNat = S at *
+  have hdm := Nat.div_add_mod S w
+  have hbs : S % w < w := Nat.mod_lt _ hw
+  generalize S / w = ws at *
+  generalize S % w = bs at *
+  subst hdm
+  rw [mask_digit w a.length ws bs i hbs hi hSN, ← pow_base, ← hout i hi]
+  by_cases hA : i ≥ a.length - ws
+  · rw [if_pos hA, if_pos hA, or_full_mask w _ (limb_lt _ (Nat.two_pow_pos _) _ hwf i)]
+  · rw [if_neg hA, if_neg hA]
+    by_cases hB : bs ≠ 0 ∧ i = a.length - 1 - ws
+    · rw [if_pos hB, if_pos hB]
+    · rw [if_neg hB, if_neg hB, Nat.or_zero]
+
+
+theorem val_replicate_max (B n : Nat) (hB : 0 < B) : val B (List.replicate n (B - 1)) + 1 = B ^ n := by
+  induction n with
+  | zero => rfl
+  | succ n ih =>
+    rw [List.replicate_succ, val_cons, Nat.pow_succ, ← ih, Nat.add_mul, Nat.mul_comm _ B]
+    omega
+
+theorem sar_neg_big (w : Nat) (a : List Nat) (s : Int) (hneg : isNeg (2 ^ w) a = true)
+    (hbig : s ≥ ((a.length * w : Nat) : Int)) : sar w a s = List.replicate a.length (2 ^ w - 1) := by
+  unfold sar
+  simp only [hneg, Bool.not_true, Bool.false_eq_true, if_false, if_pos hbig]
+
+theorem sar_nonpos (w : Nat) (hw : 0 < w) (a : List Nat) (s : Int) (hS : s ≤ 0) : sar w a s = shr w a s := by
+  by_cases hneg : isNeg (2 ^ w) a = true
+  · by_cases hbig : s ≥ ((a.length * w : Nat) : Int)
+    · exfalso
+      have hn : a.length * w = 0 := by omega
+      rcases Nat.mul_eq_zero.1 hn with h | h
+      · have : a = [] := List.length_eq_zero_iff.1 h
+        subst this
+        simp [isNeg] at hneg
+      · omega
+    · unfold sar
+      simp only [hneg, Bool.not_true, Bool.false_eq_true, if_false, if_neg hbig, if_pos hS]
+  · rw [sar_nonneg w a s (by simpa using hneg)]
+
+/-- model-level only: for `s < 0` on a negative value the C code has no such early exit (see report) -/
+theorem sar_nonpos_eq (w : Nat) (hw : 0 < w) (a : List Nat) (s : Int) (hS : s ≤ 0) : sar w a s = a := by
+  rw [sar_nonpos w hw a s hS, shr_nonpos w a s hS]
+
+theorem sar_wf (w : Nat) (hw : 0 < w) (a : List Nat) (ha : Wf (2 ^ w) a) (s : Int) :
+    Wf (2 ^ w) (sar w a s) := by
+  have hB : 0 < 2 ^ w := Nat.two_pow_pos _
+  by_cases hneg : isNeg (2 ^ w) a = true
+  · by_cases hbig : s ≥ ((a.length * w : Nat) : Int)
+    · rw [sar_neg_big w a s hneg hbig]
+      exact wf_replicate _ _ _ (by omega)
+    · by_cases hS : s ≤ 0
+      · rw [sar_nonpos w hw a s hS]; exact shr_wf w hw a ha s
+      · apply wf_of_limbs
+        intro i hi
+        rw [sar_length] at hi
+        rw [sar_limbs w hw a ha s (by omega) (by omega) hneg i hi]
+        exact Nat.mod_lt _ hB
+  · rw [sar_nonneg w a s (by simpa using hneg)]
+    exact shr_wf w hw a ha s
+
+/-- the sign-fill mask as a difference of powers -/
+theorem mask_eq (N S : Nat) (h : S ≤ N) : (2 ^ S - 1) * 2 ^ (N - S) = 2 ^ N - 2 ^ (N - S) := by
+  rw [Nat.sub_mul, Nat.one_mul, ← Nat.pow_add]
+  congr 2
+  omega
+
+/-- arithmetic right shift of a negative value, `0 < s < n*w`: logical shift plus the top `s` bits -/
+theorem sar_val_neg (w : Nat) (hw : 0 < w) (a : List Nat) (ha : Wf (2 ^ w) a) (s : Int) (hs : 0 < s)
+    (hlt : s < ((a.length * w : Nat) : Int)) (hneg : isNeg (2 ^ w) a = true) :
+    val (2 ^ w) (sar w a s) + 2 ^ (w * a.length - s.toNat) =
+      val (2 ^ w) a / 2 ^ s.toNat + 2 ^ (w * a.length) := by
+  have hB : 0 < 2 ^ w := Nat.two_pow_pos _
+  have hSN : s.toNat < w * a.length := by rw [Nat.mul_comm]; omega
+  have h := val_of_limbs (2 ^ w) hB (sar w a s) _ (by
+    intro i hi
+    rw [sar_length] at hi
+    exact sar_limbs w hw a ha s hs hlt hneg i hi)
+  have hA := val_lt _ _ ha
+  rw [pow_base] at hA
+  rw [h, sar_length, pow_base]
+  generalize s.toNat = S at *
+  generalize val (2 ^ w) a = A at *
+  generalize w * a.length = N at *
+  have hsplit : 2 ^ N = 2 ^ (N - S) * 2 ^ S := by rw [← Nat.pow_add]; congr 1; omega
+  have hq : A / 2 ^ S < 2 ^ (N - S) := by
+    rw [Nat.div_lt_iff_lt_mul (Nat.two_pow_pos _), ← hsplit]; exact hA
+  have hle : 2 ^ (N - S) ≤ 2 ^ N := Nat.pow_le_pow_right (by omega) (by omega)
+  rw [lor_eq_add' (k := N - S) (Nat.mul_mod_left _ _) hq, mask_eq N S (by omega)]
+  rw [Nat.mod_eq_of_lt (by omega)]
+  omega
+
+
+/-- floor division of a negative two's complement value, `S ≤ N` -/
+theorem int_floor_neg (A N S : Nat) (hSN : S ≤ N) :
+    ((A : Int) - ((2 ^ N : Nat) : Int)) / (2 : Int) ^ S = ((A / 2 ^ S : Nat) : Int) - ((2 ^ (N - S) : Nat) : Int) := by
+  have hsplit : 2 ^ N = 2 ^ (N - S) * 2 ^ S := by rw [← Nat.pow_add]; congr 1; omega
+  have hne : (2 : Int) ^ S ≠ 0 := Int.pow_ne_zero (by omega)
+  have hc : ((2 ^ S : Nat) : Int) = (2 : Int) ^ S := by rw [Int.natCast_pow]; rfl
+  rw [hsplit, Int.natCast_mul, hc, Int.sub_mul_ediv_right _ _ hne, Int.natCast_ediv, hc]
+
+/-- floor division of a negative value by something at least as large as its magnitude -/
+theorem int_floor_neg_big (A N S : Nat) (hA : A < 2 ^ N) (hNS : N ≤ S) :
+    ((A : Int) - ((2 ^ N : Nat) : Int)) / (2 : Int) ^ S = -1 := by
+  have hle : 2 ^ N ≤ 2 ^ S := Nat.pow_le_pow_right (by omega) hNS
+  have hne : (2 : Int) ^ S ≠ 0 := Int.pow_ne_zero (by omega)
+  have hc : ((2 ^ S : Nat) : Int) = (2 : Int) ^ S := by rw [Int.natCast_pow]; rfl
+  have e : (A : Int) - ((2 ^ N : Nat) : Int) = ((A : Int) + ((2 ^ S - 2 ^ N : Nat) : Int)) + (-1) * (2 : Int) ^ S := by
+    rw [← hc]; omega
+  rw [e, Int.add_mul_ediv_right _ _ hne, Int.ediv_eq_zero_of_lt (by omega) (by rw [← hc]; omega)]
+  rfl
+
+
+theorem two_pow_cast (S : Nat) : ((2 ^ S : Nat) : Int) = (2 : Int) ^ S := by rw [Int.natCast_pow]; rfl
+
+/-- value of the logical right shift for a non-negative shift count -/
+theorem shr_val_nonneg (w : Nat) (hw : 0 < w) (a : List Nat) (ha : Wf (2 ^ w) a) (s : Int) (hs : 0 ≤ s) :
+    val (2 ^ w) (shr w a s) = val (2 ^ w) a / 2 ^ s.toNat := by
+  rw [shr_val w hw a ha s]
+  split
+  · have : s.toNat = 0 := by omega
+    rw [this, Nat.pow_zero, Nat.div_one]
+  · rfl
+
+/-- ferret_shift_right_signed_limbs: floor division of the signed value by `2^s` -/
+theorem sar_val (w : Nat) (hw : 0 < w) (a : List Nat) (ha : Wf (2 ^ w) a) (s : Int) (hs : 0 ≤ s) :
+    toInt (2 ^ w) (sar w a s) = toInt (2 ^ w) a / 2 ^ s.toNat := by
+  have hA := val_lt _ _ ha
+  have hnegA := isNeg_iff_pow w hw a ha
+  by_cases hneg : isNeg (2 ^ w) a = true
+  · have hA2 := hnegA.1 hneg
+    rw [toInt_of_neg _ a hneg]
+    by_cases hbig : s ≥ ((a.length * w : Nat) : Int)
+    · -- all ones
+      have hwfr : Wf (2 ^ w) (List.replicate a.length (2 ^ w - 1)) :=
+        wf_replicate _ _ _ (by have := Nat.two_pow_pos w; omega)
+      have hv := val_replicate_max (2 ^ w) a.length (Nat.two_pow_pos _)
+      have hn : isNeg (2 ^ w) (List.replicate a.length (2 ^ w - 1)) = true := by
+        rw [isNeg_iff_pow w hw _ hwfr, List.length_replicate]
+        omega
+      rw [sar_neg_big w a s hneg hbig, toInt_of_neg _ _ hn, List.length_replicate, pow_base,
+        int_floor_neg_big _ (w * a.length) s.toNat (by rw [← pow_base]; exact hA)
+          (by rw [Nat.mul_comm]; omega)]
+      rw [pow_base] at hv
+      omega
+    · by_cases hS : s ≤ 0
+      · have h0 : s.toNat = 0 := by omega
+        rw [sar_nonpos w hw a s hS, shr_nonpos w a s hS, toInt_of_neg _ a hneg, h0, Int.pow_zero, Int.ediv_one]
+      · have hSN : s.toNat < w * a.length := by rw [Nat.mul_comm]; omega
+        have hv := sar_val_neg w hw a ha s (by omega) (by omega) hneg
+        have hwf := sar_wf w hw a ha s
+        have hS1 : 2 ^ 1 ≤ 2 ^ s.toNat := Nat.pow_le_pow_right (by omega) (by omega)
+        have hsplit : 2 ^ (w * a.length) = 2 ^ (w * a.length - s.toNat) * 2 ^ s.toNat := by
+          rw [← Nat.pow_add]; congr 1; omega
+        have hmul : 2 ^ (w * a.length - s.toNat) * 2 ^ 1 ≤ 2 ^ (w * a.length - s.toNat) * 2 ^ s.toNat :=
+          Nat.mul_le_mul_left _ hS1
+        have hn : isNeg (2 ^ w) (sar w a s) = true := by
+          rw [isNeg_iff_pow w hw _ hwf, sar_length, pow_base]
+          generalize val (2 ^ w) a / 2 ^ s.toNat = q at *
+          generalize 2 ^ (w * a.length - s.toNat) = h at *
+          generalize 2 ^ s.toNat = j at *
+          omega
+        rw [toInt_of_neg _ _ hn, sar_length, pow_base, int_floor_neg _ _ _ (by omega)]
+        generalize val (2 ^ w) a / 2 ^ s.toNat = q at *
+        generalize 2 ^ (w * a.length - s.toNat) = h at *
+        omega
+  · have hneg' : isNeg (2 ^ w) a = false := by simpa using hneg
+    have hv := shr_val_nonneg w hw a ha s hs
+    have hwf := shr_wf w hw a ha s
+    have hle : val (2 ^ w) a / 2 ^ s.toNat ≤ val (2 ^ w) a := Nat.div_le_self _ _
+    have hn : isNeg (2 ^ w) (shr w a s) = false := by
+      cases h : isNeg (2 ^ w) (shr w a s)
+      · rfl
+      · exfalso
+        rw [isNeg_iff_pow w hw _ hwf, shr_length] at h
+        exact hneg (hnegA.2 (by omega))
+    rw [sar_nonneg w a s hneg', toInt_of_nonneg _ _ hn, toInt_of_nonneg _ _ hneg', hv, Int.natCast_ediv,
+      two_pow_cast]
 
 end FerretVerif.Limbs
